@@ -1,5 +1,6 @@
 #[derive(Debug, Default)]
 #[cfg_attr(feature = "verif-hooks", derive(Clone))]
+#[cfg_attr(feature = "verif-hooks", derive(Hash))]
 pub struct Utf8Accum {
     /// Buffer for utf8 octets aggregation until full utf-8 char is received
     buffer: [u8; 4],
@@ -80,6 +81,24 @@ impl Utf8Accum {
     /// (buffer, expected, partial)
     pub fn __verif_state(&self) -> ([u8; 4], u8, u8) {
         (self.buffer, self.expected, self.partial)
+    }
+
+    /// Zero the parts that cannot influence any future call (octets that are not part of a pending sequence)
+    pub fn __verif_canonicalize(&mut self) {
+        if self.expected == 0 {
+            self.buffer = [0; 4];
+            self.partial = 0;
+        } else {
+            let partial = (self.partial as usize).min(4);
+            self.buffer[partial..].fill(0);
+        }
+    }
+
+    /// Hash over every field of the struct after `__verif_canonicalize`
+    pub fn __verif_canonical_hash(&self) -> u64 {
+        let mut c = self.clone();
+        c.__verif_canonicalize();
+        crate::editor::__verif_hash_of(&c)
     }
 }
 
